@@ -216,4 +216,143 @@ theorem sound_run {H : Bytes → Digest} {s s' : State} (h : Sound H s) (es : Li
     | none => simp [hst] at hr
     | some s1 => simp only [hst] at hr; exact ih (sound_step h e hst) hr
 
+/-! ### contents: whatever is visible was passed to some `Set` -/
+
+/-- every visible entry and every in-flight write carries a (key, content) pair satisfying `Q` -/
+structure Carries (Q : NS → Bytes → Bytes → Prop) (s : State) : Prop where
+  cas : ∀ d b, s.cas d = some b → Q .cas d b.content
+  tgt : ∀ k b, s.tgt k = some b → Q .target k b.content
+  pend : ∀ p pe, pe ∈ s.pend p → Q pe.ns pe.key pe.blob.content
+
+/-- the `setBegin` events of a trace all carry pairs satisfying `Q` -/
+def BeginsSatisfy (Q : NS → Bytes → Bytes → Prop) (es : List Ev) : Prop :=
+  ∀ p op ns k c refs, Ev.setBegin p op ns k c refs ∈ es → Q ns k c
+
+theorem carries_init (Q : NS → Bytes → Bytes → Prop) : Carries Q init := by
+  constructor <;> simp [init]
+
+theorem carries_store {Q : NS → Bytes → Bytes → Prop} {s : State} (h : Carries Q s) (pe : Pending)
+    (hq : Q pe.ns pe.key pe.blob.content) : Carries Q (store s pe) := by
+  obtain ⟨h1, h2, h3⟩ := h
+  cases hns : pe.ns with
+  | cas =>
+    rw [hns] at hq
+    constructor
+    · intro d b hb
+      simp only [store, hns] at hb
+      split at hb
+      · rename_i e; simp at hb; subst hb; subst e; exact hq
+      · exact h1 d b hb
+    · intro k b hb; simp only [store, hns] at hb; exact h2 k b hb
+    · intro p q hq'; simp only [store, hns] at hq'; exact h3 p q hq'
+  | target =>
+    rw [hns] at hq
+    constructor
+    · intro d b hb; simp only [store, hns] at hb; exact h1 d b hb
+    · intro k b hb
+      simp only [store, hns] at hb
+      split at hb
+      · rename_i e; simp at hb; subst hb; subst e; exact hq
+      · exact h2 k b hb
+    · intro p q hq'; simp only [store, hns] at hq'; exact h3 p q hq'
+
+theorem carries_storeAll {Q : NS → Bytes → Bytes → Prop} {s : State} (h : Carries Q s) (l : List Pending)
+    (hl : ∀ pe ∈ l, Q pe.ns pe.key pe.blob.content) : Carries Q (storeAll s l) := by
+  induction l generalizing s with
+  | nil => exact h
+  | cons pe rest ih =>
+    simp only [storeAll]
+    exact ih (carries_store h pe (hl pe (by simp))) (fun q hq => hl q (by simp [hq]))
+
+theorem carries_forget {Q : NS → Bytes → Bytes → Prop} {s : State} (h : Carries Q s) (conf' : Pid → List Digest)
+    (pend' : Pid → List Pending) (hp : ∀ p pe, pe ∈ pend' p → pe ∈ s.pend p) :
+    Carries Q { s with conf := conf', pend := pend' } :=
+  ⟨h.cas, h.tgt, fun p pe hpe => h.pend p pe (hp p pe hpe)⟩
+
+theorem carries_step {H : Bytes → Digest} {Q : NS → Bytes → Bytes → Prop} {s s' : State} (h : Carries Q s) (e : Ev)
+    (hq : ∀ p op ns k c refs, e = Ev.setBegin p op ns k c refs → Q ns k c)
+    (hs : step H s e = some s') : Carries Q s' := by
+  cases e with
+  | existsRes p ns k r =>
+    cases r with
+    | yes =>
+      simp only [step] at hs
+      split at hs
+      · simp at hs; subst hs
+        split
+        · exact ⟨h.cas, h.tgt, h.pend⟩
+        · exact h
+      · simp at hs
+    | no => simp only [step] at hs; split at hs <;> simp at hs; subst hs; exact h
+    | err => simp [step] at hs; subst hs; exact h
+  | getRes p ns k r =>
+    cases r with
+    | yes => simp only [step] at hs; split at hs <;> simp at hs; subst hs; exact h
+    | no => simp only [step] at hs; split at hs <;> simp at hs; subst hs; exact h
+    | err => simp [step] at hs; subst hs; exact h
+  | setBegin p op ns k content refs =>
+    simp only [step] at hs
+    split at hs
+    · simp at hs; subst hs
+      refine ⟨h.cas, h.tgt, ?_⟩
+      intro q pe hpe
+      simp only [upd] at hpe
+      by_cases e : q = p
+      · simp [e] at hpe
+        rcases hpe with rfl | hpe
+        · exact hq p op ns k content refs rfl
+        · exact h.pend p pe hpe
+      · simp [e] at hpe; exact h.pend q pe hpe
+    · simp at hs
+  | setEnd p op o =>
+    simp only [step] at hs
+    cases hf : (s.pend p).find? (fun pe => pe.op == op) with
+    | none => simp [hf] at hs
+    | some pe =>
+      simp only [hf] at hs
+      simp at hs; subst hs
+      have hmem : pe ∈ s.pend p := List.mem_of_find?_eq_some hf
+      have hpe := h.pend p pe hmem
+      have s1 : Carries Q { s with pend := upd s.pend p ((s.pend p).filter (fun q => q.op != op)) } := by
+        apply carries_forget h
+        intro q x hx
+        simp only [upd] at hx
+        by_cases e : q = p
+        · simp [e] at hx; exact e ▸ hx.1
+        · simpa [e] using hx
+      have s2 : Carries Q (if o = .errNotStored then { s with pend := upd s.pend p ((s.pend p).filter (fun q => q.op != op)) }
+          else store { s with pend := upd s.pend p ((s.pend p).filter (fun q => q.op != op)) } pe) := by
+        split
+        · exact s1
+        · exact carries_store s1 pe hpe
+      split
+      · exact ⟨s2.cas, s2.tgt, s2.pend⟩
+      · exact s2
+  | crash p landed =>
+    simp only [step] at hs
+    simp at hs; subst hs
+    have hsa : Carries Q (storeAll s ((s.pend p).filter (fun pe => pe.op ∈ landed))) := by
+      apply carries_storeAll h
+      intro pe hpe
+      exact h.pend p pe (List.mem_filter.mp hpe).1
+    apply carries_forget hsa
+    intro q x hx
+    simp only [upd] at hx
+    by_cases e : q = p <;> simp [e] at hx
+    exact hx
+
+theorem carries_run {H : Bytes → Digest} {Q : NS → Bytes → Bytes → Prop} {s s' : State} (h : Carries Q s) (es : List Ev)
+    (hq : BeginsSatisfy Q es) (hr : run H s es = some s') : Carries Q s' := by
+  induction es generalizing s with
+  | nil => simp [run] at hr; subst hr; exact h
+  | cons e es ih =>
+    simp only [run] at hr
+    cases hst : step H s e with
+    | none => simp [hst] at hr
+    | some s1 =>
+      simp only [hst] at hr
+      refine ih (carries_step h e ?_ hst) (fun p op ns k c refs hm => hq p op ns k c refs (List.mem_cons_of_mem _ hm)) hr
+      intro p op ns k c refs he
+      exact hq p op ns k c refs (by rw [he]; simp)
+
 end Grog.Store
